@@ -135,6 +135,16 @@ func c19Protocol(c *core.Ctx) {
 			}
 		}
 		c.Check(R, ctor+"$fn/select-arms", sel.Pos(), cArm != nil && sArm != nil && len(arms) == 2, keyf("%d arms; tick arm=%v stop arm=%v", len(arms), cArm != nil, sArm != nil))
+		// a waiter always waits: the goroutine that Refresh (re)starts must reach the select on every path — an early exit
+		// (a "someone else is already waiting" test) leaves a re-armed runtime timer with nobody listening: the callback is
+		// lost and a later Stop blocks forever on stopCh
+		early := 0
+		for _, r := range returnsIn(body) {
+			if r.Stmt.Pos() < sel.Pos() {
+				early++
+			}
+		}
+		c.Check(R, ctor+"$fn/waiter-always-reaches-select", sel.Pos(), early == 0, keyf("%d return(s) ahead of the select of the timer goroutine", early))
 		if cArm == nil || sArm == nil {
 			continue
 		}
